@@ -43,7 +43,10 @@ def gen_case(seed, i, tier):
                 if r.chance(0.7):
                     pass
             if r.chance(0.2):
-                ops.insert(r.below(len(ops) + 1), ['cross', r.below(2), r.below(4)])
+                # (how 4 / 5: the collection of the foreign object is loaded; as the session's very first action in
+                # part of the runs - a session that has not touched the database yet has no cache of its own)
+                first = 'share' not in sess and r.chance(0.4)
+                ops.insert(0 if first else r.below(len(ops) + 1), ['cross', r.below(2), r.below(6)])
             prog.append(sess)
         threads['T%d' % t] = prog
     knobs = {}
